@@ -127,21 +127,41 @@ def leanchecker(module: str, timeout=1800):
     return rc == 0, (out + err)[-2000:], dt
 
 
-def run_driver(driver: str, lines: list[str], timeout=900) -> tuple[list[str] | None, str]:
-    """Pipe request lines through `lake env lean --run Driver/<driver>.lean`."""
+def _run_driver_chunk(args):
+    driver, lines, timeout = args
+    rc, out, err, _ = _run(["lake", "env", "lean", "--run", f"Driver/{driver}.lean"], cwd=LEAN,
+                           timeout=timeout, inp="\n".join(lines) + "\n")
+    if rc != 0:
+        return None, ("timeout" if rc == 124 else "") + (out + err)[-3000:]
+    res = out.splitlines()
+    if len(res) != len(lines):
+        return None, f"driver returned {len(res)} lines for {len(lines)} requests\n" + (out + err)[-2000:]
+    return res, ""
+
+
+def run_driver(driver: str, lines: list[str], timeout=1800) -> tuple[list[str] | None, str]:
+    """Pipe request lines through `lake env lean --run Driver/<driver>.lean` (the requests are independent of each other, so they
+    are spread over several interpreter processes; the answers come back in request order)."""
     if not lines:
         return [], ""
     for ln in lines:
         if "\n" in ln:
             raise ValueError("request line contains newline")
-    rc, out, err, _ = _run(["lake", "env", "lean", "--run", f"Driver/{driver}.lean"], cwd=LEAN,
-                           timeout=timeout, inp="\n".join(lines) + "\n")
-    if rc != 0:
-        return None, (out + err)[-3000:]
-    res = out.splitlines()
-    if len(res) != len(lines):
-        return None, f"driver returned {len(res)} lines for {len(lines)} requests\n" + (out + err)[-2000:]
-    return res, ""
+    nproc = max(1, min(os.cpu_count() or 1, 12, len(lines) // 150))
+    if nproc == 1:
+        return _run_driver_chunk((driver, lines, timeout))
+    size = -(-len(lines) // nproc)
+    chunks = [lines[k:k + size] for k in range(0, len(lines), size)]
+    from concurrent.futures import ThreadPoolExecutor
+
+    with ThreadPoolExecutor(len(chunks)) as ex:
+        parts = list(ex.map(_run_driver_chunk, [(driver, c, timeout) for c in chunks]))
+    outs = []
+    for res, err in parts:
+        if res is None:
+            return None, err
+        outs += res
+    return outs, ""
 
 
 def lean_stage(prop: str, tier: str) -> dict:
